@@ -8,6 +8,7 @@ import (
 	"sort"
 	"strconv"
 	"strings"
+	"time"
 
 	coraza "github.com/corazawaf/coraza/v3"
 	"github.com/corazawaf/coraza/v3/internal/verif/runner"
@@ -104,8 +105,8 @@ type directive struct {
 	IDs2 string `json:"ids2,omitempty"`
 	// TagBy: ids of the rules that get the tag Tag only through `SecRuleUpdateActionById <ids> "tag:<Tag>"` written after the rules
 	TagBy string `json:"tag_by,omitempty"`
-	Pos  string `json:"pos,omitempty"`  // ctl placement: p1 | before | after
-	Ctl  bool   `json:"ctl,omitempty"`
+	Pos   string `json:"pos,omitempty"` // ctl placement: p1 | before | after
+	Ctl   bool   `json:"ctl,omitempty"`
 	// SkipBase: rule 1 of the base set carries skip:2, so that a removed rule inside the skip window is observable
 	SkipBase bool `json:"skip_base,omitempty"`
 	// SkipAfterBase: rule 1 carries skipAfter:MID (the marker in front of rule 3)
@@ -434,9 +435,9 @@ func outcome(w coraza.WAF, rq scen.Req) string {
 }
 
 type kase struct {
-	D   directive  `json:"directive"`
+	D    directive   `json:"directive"`
 	Then []directive `json:"then,omitempty"` // further configuration-time directives applied after D, in order
-	Req int        `json:"req"`
+	Req  int         `json:"req"`
 }
 
 func (d directive) sig() string {
@@ -489,6 +490,7 @@ func (d directive) sig() string {
 }
 
 func checkDirective(c *runner.Ctx, d directive, report func(sig, text string, k kase)) {
+	defer c.Watch("directive", kase{D: d}, 3*time.Minute)()
 	reqs := requests()
 	var confD, confR string
 	if d.Ctl {
@@ -575,6 +577,7 @@ func (d directive) selectsAny(rs []ruleD) bool {
 // checkSeq applies configuration-time directives one after the other: the result must equal the rule set
 // rewritten by all of them, in that order (each directive works on what the previous ones left).
 func checkSeq(c *runner.Ctx, ds []directive, report func(sig, text string, k kase)) {
+	defer c.Watch("directives", kase{D: ds[0], Then: ds[1:]}, 3*time.Minute)()
 	rew := base()
 	text := ""
 	var sigs []string
